@@ -2,7 +2,7 @@ From Coq Require Import List NArith ZArith Bool.
 Import ListNotations.
 Require Import MV.C11.Model MV.C11.Spec MV.C11.Exec MV.C11.ProofsFraming MV.C11.ProofsInv
         MV.C11.ProofsState MV.C11.ProofsCount MV.C11.ProofsOrder MV.C11.ProofsWire MV.C11.ProofsReflect
-        MV.C11.ProofsStream MV.C11.ProofsBook MV.C11.ProofsMain MV.C11.ProofsSpecOk MV.C11.Wake.
+        MV.C11.ProofsStream MV.C11.ProofsBook MV.C11.ProofsMain MV.C11.ProofsSpecOk MV.C11.ProofsGone MV.C11.ProofsGoneTrack MV.C11.ProofsGoneSpec MV.C11.Wake.
 From Coq Require Import Permutation.
 Open Scope N_scope.
 Require Import MV.C11.Properties.
@@ -100,6 +100,30 @@ Check (C11_example_run : Forall ev_wf ex_events /\
     lookup 2 (clients sf) = Some c /\ overflowed c = false /\ obs_ok obs = true /\
     split_frames (sent c) = ([[10; 11; 10; 1; 109; 16; 1; 26; 1; 115; 34; 1; 100]; [7; 7]; [8; 8]; [7; 7]], [])).
 Print Assumptions C11_example_run.
+Check (C11_removed_client_stream : forall limit evs1 order evs2 s1 s2 sf o1 o2,
+  Forall ev_wf evs1 -> Forall ev_wf evs2 ->
+  run fixed limit st0 evs1 = Some (s1, o1) ->
+  step fixed limit s1 (EAccept order) = Some s2 ->
+  run fixed limit s2 evs2 = Some (sf, o2) ->
+  lookup (next_token s1) (clients sf) = None ->
+  exists ms cg bs rest,
+    gen_meta (metadata s1) order = Some ms /\
+    lookup (next_token s1) (gone sf) = Some cg /\
+    sent cg = concat (map enc bs) ++ pfx cg /\ tail_ok (pfx cg) /\
+    split_frames (sent cg) = (bs, pfx cg) /\
+    Subseq (map enc bs) (enq cg) /\
+    ms ++ wake_frames evs2 = enq cg ++ rest).
+Print Assumptions C11_removed_client_stream.
+Check (C11_spec_ok_on_model_all_clients : forall c,
+  case_wf_all c -> harness_ok c = true -> spec_ok c (run_case c) = true).
+Print Assumptions C11_spec_ok_on_model_all_clients.
+Check (C11_case_wf_weaken : forall c, case_wf c -> case_wf_all c).
+Print Assumptions C11_case_wf_weaken.
+Check (C11_spec_ok_on_model_removed_example : (case_wf_all ex_case_gone /\
+   exists sf obs, run fixed (Some 2) st0 (c_events ex_case_gone) = Some (sf, obs) /\
+                  lookup 2 (clients sf) = None /\ lookup 2 (gone sf) <> None) /\
+  harness_ok ex_case_gone = true /\ spec_ok ex_case_gone (run_case ex_case_gone) = true).
+Print Assumptions C11_spec_ok_on_model_removed_example.
 Check (C11_wake_always_never_stuck : forall n cap ls s,
   wrun WakeAlways cap (winit n) ls = Some s -> ~ stuck s).
 Print Assumptions C11_wake_always_never_stuck.
